@@ -32,6 +32,12 @@ def make_math():
     A = {}
     A["exp"] = Builtin("math.exp", lambda I, a, k: uf1(I, F_exp, "exp", a[0], lambda z: z <= EXP_MAX, "OverflowError"))
     A["log"] = Builtin("math.log", lambda I, a, k: uf1(I, F_log, "log", a[0], lambda z: z > 0, "ValueError"))
+    def gcd(I, a, k):
+        import math as _m
+        if all(isinstance(x, int) and not isinstance(x, bool) for x in a):
+            return _m.gcd(*a)
+        raise Unsupported("math.gcd of symbolic integers")
+    A["gcd"] = Builtin("math.gcd", gcd)
     A["sqrt"] = Builtin("math.sqrt", lambda I, a, k: uf1(I, F_sqrt, "sqrt", a[0], lambda z: z >= 0, "ValueError"))
     A["atanh"] = Builtin("math.atanh", lambda I, a, k: uf1(I, F_atanh, "atanh", a[0], lambda z: z3.And(z > -1, z < 1), "ValueError"))
     from .numpy_model import PI
